@@ -425,6 +425,7 @@ type TapPacket struct {
 	RetryOK   bool     // Retry: integrity tag valid for the connection's original DCID
 	LargestAc int64    // largest acknowledged number the sender had been told about (in that space) when it sent this
 	SentNS    int64
+	HdrLen    int  // bytes before the packet number field
 	Repeat    bool // byte-identical repetition of an earlier packet (RFC 9000 10.2.1 allows it for CONNECTION_CLOSE)
 }
 
@@ -472,9 +473,9 @@ func (p *TapPacket) String() string {
 
 // crypto stream reassembly (only what the tap needs: contiguous prefix)
 type tapStream struct {
-	buf   []byte
-	have  []bool
-	high  uint64
+	buf      []byte
+	have     []bool
+	high     uint64
 	conflict bool
 }
 
@@ -519,11 +520,11 @@ type TapConn struct {
 	cids       [2]map[string]bool // cids[dir]: connection IDs usable as DCID in that direction
 	initKeys   [2]*tapKeys
 	hsKeys     [2]*tapKeys
-	appKeys    [2][]*tapKeys // generations
-	phase      [2]int        // generation in use (highest seen)
-	largest    [2][3]int64   // largest packet number sent
+	appKeys    [2][]*tapKeys          // generations
+	phase      [2]int                 // generation in use (highest seen)
+	largest    [2][3]int64            // largest packet number sent
 	seenPN     [2][3]map[int64]uint64 // packet number -> hash of the plaintext payload
-	ackedTo    [2][3]int64 // largest acknowledged number delivered to the sender dir
+	ackedTo    [2][3]int64            // largest acknowledged number delivered to the sender dir
 	Crypto     [2][3]*tapStream
 	Packets    []*TapPacket
 	CH         *TapClientHello
@@ -532,7 +533,7 @@ type TapConn struct {
 	RetryToken []byte
 	RetrySCID  []byte
 	retrySCIDs map[string]bool // source CIDs of all valid Retry packets seen (one per client Initial datagram)
-	SrvTP      []TapTP // server transport parameters (EncryptedExtensions)
+	SrvTP      []TapTP         // server transport parameters (EncryptedExtensions)
 	srvTPDone  bool
 	Closed     [2]bool // CONNECTION_CLOSE seen from dir
 	FirstHS    [2]int  // index into Packets of first Handshake packet, -1
@@ -850,6 +851,7 @@ func (w *Wiretap) Datagram(dir, ord int, clientAddr string, d []byte) []*TapPack
 			}
 			q += n
 			pnOff, end = q, q+int(l)
+			p.HdrLen = pnOff
 		} else {
 			p.Type = Tap1RTT
 			end = len(d)
@@ -934,6 +936,7 @@ func (w *Wiretap) Datagram(dir, ord int, clientAddr string, d []byte) []*TapPack
 							p.Conn, p.PN, p.PNLen = c, pn, pl
 							p.KeyPhase = int(fb>>2) & 1
 							p.DCID = append([]byte{}, d[1:1+cl]...)
+							p.HdrLen = 1 + cl
 							if p.KeyPhase != g&1 {
 								fail(p, "key phase bit does not match the key generation that opens the packet")
 							}
@@ -1046,11 +1049,11 @@ func (w *Wiretap) accept(p *TapPacket, pt []byte) {
 }
 
 // Delivered is called by the router when a datagram reaches its destination undamaged.
-func (w *Wiretap) Delivered(dir, ord int) {
+func (w *Wiretap) Delivered(dir, ord int, state []int8) {
 	w.mu.Lock()
 	defer w.mu.Unlock()
-	for _, p := range w.pending[dir][ord] {
-		if !p.Opened || p.Conn == nil {
+	for i, p := range w.pending[dir][ord] {
+		if !p.Opened || p.Conn == nil || (i < len(state) && state[i] != 0) {
 			continue
 		}
 		for i := range p.Frames {
@@ -1082,15 +1085,15 @@ func (t TapTP) Uint() (uint64, bool) {
 }
 
 type TapClientHello struct {
-	Raw        []byte
-	Version    uint16
-	Random     []byte
-	SessionID  []byte
-	Suites     []uint16
-	Compress   []byte
-	Exts       []TapExt
-	TPs        []TapTP
-	HasTP      bool
+	Raw         []byte
+	Version     uint16
+	Random      []byte
+	SessionID   []byte
+	Suites      []uint16
+	Compress    []byte
+	Exts        []TapExt
+	TPs         []TapTP
+	HasTP       bool
 	TPCodepoint uint16
 }
 
